@@ -28,7 +28,7 @@ import ast
 import itertools
 
 from .core import AnalysisError
-from .objmodel import ClassModel, new_parser_state
+from .objmodel import ClassModel, new_parser_state, open_checkpoints
 from .opsem import INPUT, RELS, Oracle, make_oracle, program
 from .ordabs import Ev, ModelRaise, Obj
 from .repo import Repo
@@ -65,7 +65,7 @@ def observe(state: Obj, pairs: list, result: object) -> dict:
     return {
         "result": bool(result), "pos": state.pos, "stack": list(state.user_stack.__dict__.get("items", [])), "pairs": tuple(pair_shape(p) for p in pairs),
         "frames": len(state.rule_stack.__dict__.get("items", [])), "atomic": state.atomic_depth.__dict__.get("_value"), "negdepth": state.neg_pred_depth,
-        "tags": list(state.tag_stack), "open_checkpoints": len(state.__dict__.get("_pos_history", [])),
+        "tags": list(state.tag_stack), "open_checkpoints": open_checkpoints(state),
         "hide": bool(state.__dict__.get("hide_pairs", False)),
         # the furthest-failure record: where, and under which rule names (label texts are not compared)
         "furthest": (state.__dict__.get("furthest_pos"), tuple(sorted(map(str, state.__dict__.get("furthest_expected") or {}))), tuple(sorted(map(str, state.__dict__.get("furthest_unexpected") or {})))),
